@@ -41,6 +41,11 @@ def _lin(tab, x, y):
     return [r + (a - r * b) / my for a, b in zip(tab[x], tab[y])]
 
 
+def _same_fields(a, b):
+    """field-by-field identity of two results, NaN equal to NaN (degenerate samples give NaN statistics)"""
+    return len(a) == len(b) and all(x == y or (x != x and y != y) for x, y in zip(a, b))
+
+
 @H.under_contrary_config
 def _run_case(case):
     import tea_tasting as tt
@@ -57,7 +62,7 @@ def _run_case(case):
     # denominator absent / column of ones = Mean
     mres = tt.Mean(cfg["numer"], **kw).analyze(tab, 0, 1, "variant")
     r_none = tt.RatioOfMeans(cfg["numer"], None, **kw).analyze(tab, 0, 1, "variant")
-    if tuple(mres) != tuple(r_none):
+    if not _same_fields(mres, r_none):
         bad.append(("RatioOfMeans(x, None) != Mean(x)", tuple(r_none), tuple(mres)))
     ones = dict(case, control=dict(case["control"], one=[1.0] * len(case["control"]["x"])),
                 treatment=dict(case["treatment"], one=[1.0] * len(case["treatment"]["x"])))
@@ -67,7 +72,7 @@ def _run_case(case):
     cov = next(c for c in G.COLS if c != cfg["numer"])
     a = tt.Mean(cfg["numer"], cov, **kw).analyze(tab, 0, 1, "variant")
     b = tt.RatioOfMeans(cfg["numer"], None, cov, None, **kw).analyze(tab, 0, 1, "variant")
-    if tuple(a) != tuple(b):
+    if not _same_fields(a, b):
         bad.append(("Mean(v, c) != RatioOfMeans(v, None, c, None)", tuple(a), tuple(b)))
     return bad
 
